@@ -35,7 +35,88 @@ pub fn byte_xor(arr1: &[u8], arr2: &[u8]) -> Vec<u8> {
 }
 
 pub fn get_crypto_rng() -> ChaCha20Rng {
+    #[cfg(blsful_verif)]
+    if let Some(rng) = verif_hooks::tapped_rng() {
+        return rng;
+    }
     ChaCha20Rng::from_entropy()
+}
+
+/// Verification hooks (compiled only with `--cfg blsful_verif`; off by default at run time).
+#[cfg(blsful_verif)]
+pub mod verif_hooks {
+    use super::*;
+    use std::cell::{Cell, RefCell};
+    use std::collections::VecDeque;
+
+    thread_local! {
+        static TAP_ON: Cell<bool> = Cell::new(false);
+        static H2C_ON: Cell<bool> = Cell::new(false);
+        static DRAWS: Cell<u64> = Cell::new(0);
+        static QUEUE: RefCell<VecDeque<[u8; 32]>> = RefCell::new(VecDeque::new());
+        static LOG: RefCell<Vec<[u8; 32]>> = RefCell::new(Vec::new());
+    }
+
+    /// Suffix appended to the tag for the known-discrete-log hash
+    pub const H2C_SUFFIX: &[u8] = b"|VERIF-KNOWN-DLOG";
+
+    /// Enable / disable the entropy tap on this thread
+    pub fn set_entropy_tap(on: bool) {
+        TAP_ON.with(|t| t.set(on));
+    }
+
+    /// Enable / disable the known-discrete-log hash on this thread
+    pub fn set_known_dlog_hash(on: bool) {
+        H2C_ON.with(|t| t.set(on));
+    }
+
+    /// Queue a seed to be returned by the next tapped draw
+    pub fn push_seed(seed: [u8; 32]) {
+        QUEUE.with(|q| q.borrow_mut().push_back(seed));
+    }
+
+    /// Number of draws seen by the tap on this thread
+    pub fn draws() -> u64 {
+        DRAWS.with(|d| d.get())
+    }
+
+    /// Take (and clear) the log of seeds handed out by the tap on this thread
+    pub fn take_log() -> Vec<[u8; 32]> {
+        LOG.with(|l| core::mem::take(&mut *l.borrow_mut()))
+    }
+
+    /// Reset the tap state (counter, queue, log) on this thread
+    pub fn reset() {
+        DRAWS.with(|d| d.set(0));
+        QUEUE.with(|q| q.borrow_mut().clear());
+        LOG.with(|l| l.borrow_mut().clear());
+    }
+
+    pub(crate) fn tapped_rng() -> Option<ChaCha20Rng> {
+        if !TAP_ON.with(|t| t.get()) {
+            return None;
+        }
+        DRAWS.with(|d| d.set(d.get() + 1));
+        let seed = match QUEUE.with(|q| q.borrow_mut().pop_front()) {
+            Some(s) => s,
+            None => {
+                let mut s = [0u8; 32];
+                rand_core::RngCore::fill_bytes(&mut ChaCha20Rng::from_entropy(), &mut s);
+                s
+            }
+        };
+        LOG.with(|l| l.borrow_mut().push(seed));
+        Some(ChaCha20Rng::from_seed(seed))
+    }
+
+    pub(crate) fn known_dlog_hash<G: Group<Scalar = Scalar>>(m: &[u8], dst: &[u8]) -> Option<G> {
+        if !H2C_ON.with(|t| t.get()) {
+            return None;
+        }
+        let mut salt = dst.to_vec();
+        salt.extend_from_slice(H2C_SUFFIX);
+        Some(G::generator() * scalar_from_hkdf_bytes(Some(&salt), m))
+    }
 }
 
 pub fn pairing_g1_g2(points: &[(G1Projective, G2Projective)]) -> Gt {
